@@ -6,8 +6,12 @@ T  coq/rt/C08Props.v: theorems about the model of ExecutionTimeout (cadence, nev
 R  (a) GenRtConsts.v regenerated from vm.rs (constants, allow_catch flags at the two unwinding call sites);
    (b) the VERBATIM source text of ExecutionTimeout compiled against a scripted clock, compared call by call
        with the Coq model on the same clocks (both cfg!(debug_assertions) settings)
+   (c) GenKotoSettings.v regenerated from koto.rs: every KotoSettings builder method as a function on a record;
+       builders_preserve_limit / limit_survives_any_chain are re-proved against it
 D  non-terminating shapes x limits on the real runtime (kh_rt): error class, wall clock, catch marker,
-   follow-up script on the same instance; terminating scripts with and without a limit
+   follow-up script on the same instance; terminating scripts with and without a limit; a CONFIGURATION axis: the
+   runtime built through Koto::with_settings(KotoSettings::default()...) with the builder methods in many orders,
+   through KotoVmSettings directly, and a spawned shared vm; the configured limit after every kind of builder chain
 """
 import json
 import os
@@ -22,7 +26,7 @@ UNIT = "rt"
 
 PINNED = ["check_cadence", "cadence_run", "timeout_not_early", "timeout_bound", "terminating_unaffected",
           "adj_exact_satisfies_hypothesis", "timeout_never_caught_by_unwinding", "timeout_not_catchable",
-          "nested_timeout_catchable_refuted"]
+          "nested_timeout_catchable_refuted", "builders_preserve_limit", "limit_survives_any_chain"]
 
 KNOWN_C08A = ("C08a a timeout raised in a NESTED vm activation (generator body, @display or another overload reached "
               "through a native function, functor passed to a core-library function) reaches the enclosing script as an "
@@ -143,10 +147,70 @@ def gen_cases(tier, seed):
             src = PRE + CATCHES[cn](WRAPS[wn][1](BODIES[bn])) + "\nprint 'END'\n"
             cases.append({"kind": "t", "src": src, "limit_ms": lim, "follow": FOLLOW, "origin": "shape",
                           "shape": f"{bn}/{wn}/{cn}", "nested": nested, "expect": "timeout"})
+    cases += config_cases(tier, seed)
     for name, src in TERMINATING:
         for lim in ([None, 5000] if tier == "quick" else [None, 2000, 5000, 20000]):
             cases.append({"kind": "t", "src": src, "limit_ms": lim, "follow": FOLLOW, "origin": "terminating",
                           "shape": "terminating/" + name, "nested": False, "expect": "same"})
+    return cases
+
+
+OTHER_BUILDERS = ["stdout", "stderr", "stdin", "args", "callback", "inherit_args", "run_tests_off"]
+CONFIG_SCRIPTS = [
+    ("loop", PRE + "loop\n  x += 1\nprint 'END'\n", 60, "timeout"),
+    ("while-in-fn-in-try", PRE + catch_outer("f = ||\n  x = 0\n  while true\n    x += 1\nf()") + "\nprint 'END'\n", 40, "timeout"),
+    ("for-over-generator", PRE + "for v in endless()\n  x += v\nprint 'END'\n", 80, "timeout"),
+    ("fast", "x = 0\nfor i in 0..2000\n  x += i % 7\nprint 'done'\nx", 5000, "same"),
+    ("long-crossing-checks", "x = 0\nfor i in 0..1200000\n  x += i % 7\nx", 5000, "same"),
+]
+
+
+def config_orders(rng, tier):
+    """orders of the KotoSettings builder calls (stdout and stderr are always installed: the scripts print)"""
+    orders = []
+    rest = lambda used: [b for b in ("stdout", "stderr") if b not in used]
+    for b in OTHER_BUILDERS:                       # limit first, then each other builder method
+        orders.append(["limit", b] + rest([b]))
+        orders.append([b, "limit"] + rest([b]))    # .. and the other way round
+    allb = list(OTHER_BUILDERS)
+    orders.append(["inherit_io", "limit"] + allb)              # limit near the front, everything after it
+    orders.append(["inherit_io"] + allb + ["limit"])           # limit last
+    for _ in range(4 if tier == "quick" else 40):              # limit in between, shuffled
+        sh = list(allb)
+        for i in range(len(sh) - 1, 0, -1):
+            j = rng.below(i + 1)
+            sh[i], sh[j] = sh[j], sh[i]
+        k = 1 + rng.below(len(sh) - 1)
+        orders.append(sh[:k] + ["limit"] + sh[k:])
+    return orders
+
+
+def config_cases(tier, seed):
+    rng = C.Rng(seed * 31 + 5)
+    cases = []
+    configs = [{"via": "vm"}, {"via": "vm-spawned"}] + [{"via": "koto", "order": o} for o in config_orders(rng, tier)]
+    for ci, cfg in enumerate(configs):
+        tag = cfg["via"] + (":" + ">".join(cfg["order"]) if "order" in cfg else "")
+        for si, (name, src, lim, expect) in enumerate(CONFIG_SCRIPTS):
+            if tier == "quick" and name == "long-crossing-checks" and ci % 5 != 0:
+                continue
+            cases.append({"kind": "t", "src": src, "limit_ms": lim, "follow": FOLLOW, "origin": "config",
+                          "shape": f"config/{name}@{tag}", "nested": False, "expect": expect, "config": cfg,
+                          "nonterminating": expect == "timeout"})
+    # the settings alone: the configured limit after every kind of chain
+    allb = OTHER_BUILDERS + ["inherit_io"]
+    chains = [["limit"]] + [["limit", b] for b in allb] + [[b, "limit"] for b in allb]
+    for _ in range(60 if tier == "quick" else 600):
+        sh = list(allb)
+        for i in range(len(sh) - 1, 0, -1):
+            j = rng.below(i + 1)
+            sh[i], sh[j] = sh[j], sh[i]
+        sh = sh[:1 + rng.below(len(sh))]
+        k = rng.below(len(sh) + 1)
+        chains.append(sh[:k] + ["limit"] + sh[k:])
+    for ch in chains:
+        cases.append({"kind": "cfg", "order": ch, "limit_ms": 75, "origin": "settings-chain", "shape": "settings/" + ">".join(ch),
+                      "nested": False, "expect": "cfg"})
     return cases
 
 
@@ -184,7 +248,8 @@ def run_cases(binp, cases, shards, hard_cap):
         cf = os.path.join(C.BUILD, "cases", f"c08-{os.getpid()}-{s}.jsonl")
         with open(cf, "w") as f:
             for i in idx:
-                f.write(json.dumps({k: cases[i][k] for k in ("kind", "src", "limit_ms", "follow") if k in cases[i]}) + "\n")
+                f.write(json.dumps({k: cases[i][k] for k in ("kind", "src", "limit_ms", "follow", "config", "nonterminating", "order")
+                                    if k in cases[i]}) + "\n")
         p = subprocess.Popen([binp, cf], stdout=subprocess.PIPE, stderr=subprocess.DEVNULL, text=True, env=C.ENV)
         procs.append((p, idx, cf))
     results = [None] * len(cases)
@@ -413,6 +478,16 @@ def run(tier, seed):
         chk.oblige("gen:rt", False, str(e))
         chk.log(f"translator failed: {e}")
         gen_ok = False
+    try:
+        builders, _ = k2v_rt.gen_settings(os.path.join(C.COQ, UNIT, "GenKotoSettings.v"))
+        chk.oblige("gen:settings (k2v_rt: every KotoSettings builder method: fields set, struct-update bases)", True)
+        odd = [b["name"] for b in builders if not (b["vm_base_is_self"] and b["outer_base_is_self"])]
+        if odd:
+            chk.log("builder methods that do not carry the previous settings over: " + ", ".join(odd))
+    except k2v.GenError as e:
+        chk.oblige("gen:settings", False, str(e))
+        chk.log(f"translator failed: {e}")
+        gen_ok = False
     # ---- T
     model_ok, axioms = (False, [])
     if gen_ok:
@@ -435,7 +510,7 @@ def run(tier, seed):
                                 "log": blog[-3000:]}, no_input=True)
         return chk.finish("n/a")
     cases = gen_cases(tier, seed)
-    budget = sum((c["limit_ms"] or 0) + 400 for c in cases) / 1000.0
+    budget = sum(((c["limit_ms"] or 0) if c["expect"] == "timeout" else 0) + 400 for c in cases if c["kind"] == "t") / 1000.0
     shards = 4 if tier == "quick" else 6
     hard_cap = 90 + 3 * budget / shards
     results = run_cases(binp, cases, shards, hard_cap)
@@ -444,6 +519,10 @@ def run(tier, seed):
     shape_dist = {}
     walls = {}
     base = {}
+    cfg_base = {}
+    for c, r in zip(cases, results):
+        if c["origin"] == "config" and c["expect"] == "same" and c.get("config", {}).get("via") == "vm" and r and "r" in r:
+            cfg_base[c["shape"].split("@")[0]] = r
     for c, r in zip(cases, results):
         key = c["origin"] + ("/nested" if c.get("nested") else "")
         shape_dist[key] = shape_dist.get(key, 0) + 1
@@ -458,6 +537,11 @@ def run(tier, seed):
         if r is None:
             d_fail.append((c, None, [f"did not return within the hard cap of {hard_cap:.0f} s (limit {c['limit_ms']} ms)"]))
             continue
+        if c["expect"] == "cfg":
+            if r.get("limit_ms") != c["limit_ms"]:
+                d_fail.append((c, r, [f"KotoSettings built with the calls {' > '.join(c['order'])} (limit = with_execution_limit("
+                                      f"{c['limit_ms']} ms)) has execution_limit = {r.get('limit_ms')}"]))
+            continue
         if c["expect"] == "timeout":
             fails = d_timeout(c, r)
             if not fails:
@@ -468,6 +552,8 @@ def run(tier, seed):
                 d_fail.append((c, r, fails))
         else:
             b = base.get(c["shape"])
+            if b is None and c["origin"] == "config":
+                b = cfg_base.get(c["shape"].split("@")[0])
             fails = []
             if "panic" in r:
                 fails.append(f"panicked: {r['panic']}")
@@ -481,12 +567,19 @@ def run(tier, seed):
 
     # ---- verdict
     if d_fail:
-        d_fail.sort(key=lambda x: len(x[0]["src"]))
+        d_fail.sort(key=lambda x: len(x[0].get("src", "")) + 10 * len(x[0].get("order", [])))
         c, r, fails = d_fail[0]
-        chk.violation("input", {"kind": "input", "case": {k: c[k] for k in ("kind", "src", "limit_ms", "follow", "shape", "nested", "expect")},
+        chk.violation("input", {"kind": "input", "case": {k: c[k] for k in ("kind", "src", "limit_ms", "follow", "shape", "nested", "expect",
+                                                                             "config", "nonterminating", "order") if k in c},
                                 "impl_says": r, "predicate_failed": fails, "others": len(d_fail) - 1,
                                 "how_to_rerun": "./check C08 --replay <this file>"})
         chk.log(f"{len(d_fail)} cases violate C08 on the implementation; smallest: {c['shape']} limit {c['limit_ms']} ms: {fails[:2]}")
+        seen_shapes = set()
+        for cc, rr, ff in d_fail[:400]:
+            key = cc["shape"].split("@")[0] + " | " + ff[0][:110]
+            if key not in seen_shapes and len(seen_shapes) < 8:
+                seen_shapes.add(key)
+                chk.log("  e.g. " + cc["shape"][:150] + ": " + ff[0][:160])
     broken = [o for o in chk.obligations if not o[1]]
     if broken and not d_fail:
         payload = {"kind": "obligation", "broken": [o[0] + (": " + o[2] if o[2] else "") for o in broken]}
@@ -537,7 +630,9 @@ def replay(path, args):
         print("  did not return within 120 s")
         print(f"VIOLATION property={PID} replay={path}")
         return 1
-    if case.get("expect") == "timeout":
+    if case.get("expect") == "cfg":
+        fails = [] if r.get("limit_ms") == case["limit_ms"] else [f"execution_limit after the chain is {r.get('limit_ms')}"]
+    elif case.get("expect") == "timeout":
         fails = d_timeout(case, r)
     else:
         fails = [f"terminating script returned {r.get('r')}"] if r.get("r") == "ETimeout" or "panic" in r else []
